@@ -185,6 +185,8 @@ def main(tier, seed):
     terms, meta, verdicts, logs = run_cases(rep, nd_mi, nd_gamma, incr, bins)
     judge(rep, terms, meta, verdicts, logs)
     histories(rep, rng, tier)
+    import r9
+    r9.c15_rejected_calls(rep, rng, tier)
     return rep.finish()
 
 
